@@ -10,6 +10,8 @@ vars == <<ty, todo, map, phase, hist>>
 
 PutM(m, k, v) == {p \in m : p[1] # k} \cup {<<k, v>>}
 Step(op, k, v, m) == [op |-> op, k |-> BitsToStr(k), v |-> BitsToStr(v), items |-> ItemsJson(m)]
+\* lookups and encodings leave the map as it is: the replayer compares listings after put and dec only, so these steps carry none
+Same(op, k, v) == [op |-> op, k |-> BitsToStr(k), v |-> BitsToStr(v), items |-> <<>>]
 
 Init == /\ ty \in Types
         /\ todo \in {S \in SUBSET PoolOf(ty) : Cardinality(S) <= MaxSet}
@@ -27,14 +29,14 @@ TailOf(m, pool) ==
       hasAbsent == cand # {}
       absent == IF hasAbsent THEN CHOOSE k \in cand : TRUE ELSE <<>>
       si == SortedItems(m)
-      gets == [i \in 1..Len(si) |-> Step("get", si[i][1], si[i][2], m)]
+      gets == [i \in 1..Len(si) |-> Same("get", si[i][1], si[i][2])]
       m2 == IF m = {} THEN m ELSE PutM(m, si[1][1], Val2(si[1][1]))
       over == IF m = {} THEN <<>> ELSE << Step("put", si[1][1], Val2(si[1][1]), m2) >>
       m3 == IF hasAbsent THEN PutM(m2, absent, Val(absent)) ELSE m2
       fresh == IF hasAbsent THEN << Step("put", absent, Val(absent), m3) >> ELSE <<>>
-  IN [h |-> << Step("enc", <<>>, <<>>, m), Step("dec", <<>>, <<>>, m) >> \o gets
-              \o (IF hasAbsent THEN << Step("getabsent", absent, <<>>, m) >> ELSE <<>>)
-              \o over \o fresh \o << Step("enc", <<>>, <<>>, m3), Step("dec", <<>>, <<>>, m3) >>,
+  IN [h |-> << Same("enc", <<>>, <<>>), Step("dec", <<>>, <<>>, m) >> \o gets
+              \o (IF hasAbsent THEN << Same("getabsent", absent, <<>>) >> ELSE <<>>)
+              \o over \o fresh \o << Same("enc", <<>>, <<>>), Step("dec", <<>>, <<>>, m3) >>,
       m |-> m3]
 TailApply(o) == hist' = hist \o o.h /\ map' = o.m
 TailStep == /\ phase = "put" /\ todo = {}
@@ -42,6 +44,14 @@ TailStep == /\ phase = "put" /\ todo = {}
             /\ phase' = "done" /\ UNCHANGED <<ty, todo>>
 Next == PutNext \/ TailStep
 Spec == Init /\ [][Next]_vars
-Emit == phase = "done" => PrintT(<<"VEC", ToJson([kind |-> ty[1], n |-> ty[2], steps |-> hist])>>)
+\* A behaviour names few keys many times: the vector carries each key once (`keys`) and the steps refer to it by position
+\* (0 = no key); the runner expands the references before the replay.
+KeysIn(h) == UNION {{h[i].k} \cup {h[i].items[j][1] : j \in 1..Len(h[i].items)} : i \in 1..Len(h)} \ {""}
+Compact(h, ks) ==
+  LET Idx(k) == IF k = "" THEN 0 ELSE CHOOSE i \in 1..Len(ks) : ks[i] = k IN
+  [kind |-> ty[1], n |-> ty[2], keys |-> ks,
+   steps |-> [i \in 1..Len(h) |-> [op |-> h[i].op, k |-> Idx(h[i].k), v |-> h[i].v,
+                                    items |-> [j \in 1..Len(h[i].items) |-> <<Idx(h[i].items[j][1]), h[i].items[j][2]>>]]]]
+Emit == phase = "done" => PrintT(<<"VEC", ToJson(Compact(hist, SetToSeq(KeysIn(hist))))>>)
 
 =============================================================================
